@@ -1,8 +1,8 @@
 SPECIFICATION Spec
 CONSTANTS
-  MaxN = 4
-  BufSizes = {0, 1, 2, 3, 6}
-  PrefixSizes = {0, 1, 3, 4, 7}
+  MaxN = 6
+  BufSizes = {0, 1, 2, 3, 5, 8}
+  PrefixSizes = {0, 1, 3, 4, 7, 9}
 INVARIANT Inv
 ACTION_CONSTRAINT ExportTransitions
 CHECK_DEADLOCK FALSE
